@@ -69,7 +69,7 @@ func emit(e Ev) {
 		k, _ := e["kind"].(string)
 		statsMap[k+"."+op]++
 	}
-	if len(samples) < 6 && nEvents%97 == 5 {
+	if len(samples) < 8 && nEvents%211 == 5 {
 		samples = append(samples, compactSample(e))
 	}
 }
@@ -77,12 +77,56 @@ func emit(e Ev) {
 // a short human-readable rendering of an event for the evidence file
 func compactSample(e Ev) Ev {
 	s := Ev{}
-	for _, k := range []string{"fam", "kind", "op", "a", "r", "panic", "cfg"} {
+	for _, k := range []string{"fam", "kind", "op", "r", "panic", "cfg", "cmps", "p", "mp", "text", "at"} {
 		if v, ok := e[k]; ok {
 			s[k] = v
 		}
 	}
+	if a, ok := e["a"].(Ev); ok { // only the arguments in use
+		args := Ev{}
+		for k, v := range a {
+			switch t := v.(type) {
+			case int:
+				if t != 0 {
+					args[k] = t
+				}
+			case string:
+				if t != "" {
+					args[k] = t
+				}
+			case []int:
+				if len(t) > 0 {
+					args[k] = t
+				}
+			}
+		}
+		s["args"] = args
+	}
+	// the observed abstract state before and after, abbreviated
+	for _, k := range []string{"pre", "post"} {
+		if o, ok := e[k].(Ev); ok {
+			ab := Ev{}
+			for _, f := range []string{"vals", "keys", "size", "peek", "full"} {
+				if v, ok := o[f]; ok {
+					ab[f] = v
+				}
+			}
+			s[k] = ab
+		}
+	}
 	return s
+}
+
+// distinct cases: a call from a distinct (kind, configuration, concrete source state, operation, argument tuple)
+var distinctCases = map[uint64]struct{}{}
+
+func noteCase(parts ...string) {
+	h := fnv.New64a()
+	for _, p := range parts {
+		h.Write([]byte(p))
+		h.Write([]byte{0})
+	}
+	distinctCases[h.Sum64()] = struct{}{}
 }
 
 func die(format string, a ...any) {
